@@ -54,6 +54,9 @@ def engine(repo) -> TaintEngine:
         # the FilterConfig records the CLI's wiring function builds from the command line are configuration as well: their sources / outputs are the URIs the filters will be given
         cmod, pf = repo.find('openfilter/cli/common.py::parse_filters')
         e.source_records.add(e.by_node[id(pf)].key)
+        # models.toml is configuration as well: the model locations it lists (jfrog://, https://, s3:// ...) are URIs the filter is given, and Filter.init puts them into the START facets
+        fmod_, gmi = repo.find(f'{F}::FilterContext.get_model_info')
+        e.source_calls.add('FilterContext.get_model_info')
         e.run()
         repo._taint = e
     return e
